@@ -1,0 +1,124 @@
+//go:build verif
+// +build verif
+
+// Package verifhook provides named crash points for the verification harness in /verif
+// (property C06). Without the build tag `verif` Crash is an empty, inlinable function.
+//
+// With the tag:
+//
+//	VERIF_CRASH=name:k[:delay_ms]  the process SIGKILLs itself on the k-th time the point
+//	                               `name` is reached (hits are counted per name, atomically).
+//	                               With delay_ms the goroutine that reached the point first
+//	                               stalls for that long (all other goroutines keep running, as
+//	                               if this one were descheduled or blocked in a slow syscall)
+//	                               and the process is killed then.
+//	VERIF_STALL=name:k:ms[,...]    the goroutine that reaches `name` for the k-th time (k=0: every
+//	                               time) sleeps ms milliseconds and goes on; nothing dies. Models a
+//	                               slow step (descheduled thread, slow disk) next to a crash elsewhere.
+//	VERIF_CRASH_LOG=path           every point reached appends "<unix-nanoseconds> <name>\n"
+//	                               (one write(2) with O_APPEND) so the harness can learn which
+//	                               points a history reaches, how often and when.
+package verifhook
+
+import (
+	"os"
+	"strconv"
+	"strings"
+	"sync"
+	"sync/atomic"
+	"syscall"
+	"time"
+)
+
+var (
+	once      sync.Once
+	target    string
+	targetK   int64
+	delay     time.Duration
+	logf      *os.File
+	enabled   bool
+	targetCnt int64
+	stalls    []*stall
+)
+
+type stall struct {
+	name string
+	k    int64
+	d    time.Duration
+	cnt  int64
+}
+
+func initHook() {
+	if v := os.Getenv("VERIF_CRASH"); v != "" {
+		parts := strings.Split(v, ":")
+		if len(parts) >= 2 {
+			k, err := strconv.ParseInt(parts[1], 10, 64)
+			if err == nil && k > 0 {
+				target, targetK = parts[0], k
+				enabled = true
+			}
+			if len(parts) >= 3 {
+				if ms, err := strconv.ParseInt(parts[2], 10, 64); err == nil && ms > 0 {
+					delay = time.Duration(ms) * time.Millisecond
+				}
+			}
+		}
+	}
+	for _, v := range strings.Split(os.Getenv("VERIF_STALL"), ",") {
+		parts := strings.Split(v, ":")
+		if len(parts) != 3 {
+			continue
+		}
+		k, err1 := strconv.ParseInt(parts[1], 10, 64)
+		ms, err2 := strconv.ParseInt(parts[2], 10, 64)
+		if err1 == nil && err2 == nil && k >= 0 && ms > 0 {
+			stalls = append(stalls, &stall{name: parts[0], k: k, d: time.Duration(ms) * time.Millisecond})
+			enabled = true
+		}
+	}
+	if p := os.Getenv("VERIF_CRASH_LOG"); p != "" {
+		f, err := os.OpenFile(p, os.O_WRONLY|os.O_APPEND|os.O_CREATE, 0644)
+		if err == nil {
+			logf = f
+			enabled = true
+		}
+	}
+}
+
+// Crash marks a named crash point.
+func Crash(name string) {
+	once.Do(initHook)
+	if !enabled {
+		return
+	}
+	if logf != nil {
+		b := make([]byte, 0, 48)
+		b = strconv.AppendInt(b, time.Now().UnixNano(), 10)
+		b = append(b, ' ')
+		b = append(b, name...)
+		b = append(b, '\n')
+		logf.Write(b)
+	}
+	for _, st := range stalls {
+		if st.name == name {
+			if n := atomic.AddInt64(&st.cnt, 1); st.k == 0 || n == st.k {
+				time.Sleep(st.d)
+			}
+		}
+	}
+	if name != target {
+		return
+	}
+	if atomic.AddInt64(&targetCnt, 1) != targetK {
+		return
+	}
+	if logf != nil {
+		logf.Write([]byte(strconv.FormatInt(time.Now().UnixNano(), 10) + " !crash " + name + "\n"))
+	}
+	if delay > 0 {
+		time.Sleep(delay)
+	}
+	syscall.Kill(os.Getpid(), syscall.SIGKILL)
+	// SIGKILL is asynchronous with respect to this thread: never run past the point
+	select {}
+}
